@@ -32,7 +32,7 @@ ASSUMPTIONS = ["hashlib.sha256 is SHA-256",
                "top digit; bn_rand_mod(b) = bn_rand(bits(b) + 40) mod b, repeated while zero (relic_bn_util.c)"]
 
 GEN_LENS = [0, 1, 31, 32, 33, 55, 56, 64, 65, 1000, 65535, 65536, 65537]
-KNOWN_CTR = 32513          # first reseed counter for which counter + 255 does not fit an int16_t
+KNOWN_CTR = 32513          # first reseed counter for which counter + 255 does not fit an int16_t (defect repaired in ce0163b; class kept)
 
 
 def parts(tier):
@@ -614,7 +614,7 @@ def run_long(ctx, R, L):
                 ctx.end()
     idx += 1
 
-    # known class (DESIGN 6 #8) made reachable without a long history: injected counter at the int16 boundary
+    # the int16 boundary of the repaired defect (DESIGN 6 #8) without a long history: injected counters around and far beyond it
     if ctx.mine(idx):
         L.hist = "injected-counter"
         for c in (32512, 32513, 32767, 32768, 40000, 65535, 65536, 70000, (1 << 24) + 5):
